@@ -396,7 +396,7 @@ func classifyRange(p *packages.Package, site rangeSite) (class string, why strin
 	if len(body) == 2 {
 		if as, ok := body[0].(*ast.AssignStmt); ok && nospace(as.Rhs[0]) == key {
 			if br, ok := body[1].(*ast.BranchStmt); ok && br.Tok == token.BREAK {
-				gs := guardsOf(site.Outer.Body, rs.Pos())
+				gs := append(guardsOf(site.Outer.Body, rs.Pos()), factsAt(site.Outer.Body, rs.Pos())...)
 				m := nospace(rs.X)
 				for _, gd := range gs {
 					if gd == "!(len("+m+")>1)" || gd == "len("+m+")<=1" || gd == "len("+m+")==1" {
@@ -678,16 +678,31 @@ func C19(c *Ctx) {
 		siteKeys[s.Key] = true
 	}
 	claimed := map[string]bool{}
+	// table entries whose own key names a loop with exactly the tabled effects keep that loop
+	exactKeys := map[string]bool{}
+	for _, s := range sites {
+		if rs, ok := orderReasons[s.Key]; ok && rs.effects == effectSignature(s.Pkg, s.Stmt.Body) {
+			exactKeys[s.Key] = true
+		}
+	}
 	for _, s := range sites {
 		seen[s.Key] = true
 		construct := "G." + s.Key
 		rs, ok := orderReasons[s.Key]
+		if ok && rs.effects != effectSignature(s.Pkg, s.Stmt.Body) {
+			// the ordinal now names another loop of the function (a loop before it was added or removed): look the
+			// loop up by what it does instead
+			ok = false
+		}
+		if ok {
+			claimed[s.Key] = true
+		}
 		if !ok {
 			// the function, its closure variable or the operand was renamed: an entry of the same package that matches no
 			// site under its own key and has exactly this effect signature still describes this loop
 			sig := effectSignature(s.Pkg, s.Stmt.Body)
 			for k, cand := range orderReasons {
-				if !siteKeys[k] && !claimed[k] && strings.HasPrefix(k, s.Pkg.Types.Name()+".") && cand.effects == sig && sig != "" {
+				if !exactKeys[k] && !claimed[k] && strings.HasPrefix(k, s.Pkg.Types.Name()+".") && cand.effects == sig && sig != "" {
 					if class, _ := classifyRange(s.Pkg, s); class == "" {
 						rs, ok = cand, true
 						claimed[k] = true
@@ -723,7 +738,7 @@ func C19(c *Ctx) {
 	// an entry without a site is harmless (the loop is gone, or it was matched by signature and every remaining map
 	// range has a verdict of its own above); it is reported for housekeeping only
 	r.Analysed["order_table_entries_without_site"] = stale
-	r.MinRule("C19-a", 20)
+	r.MinRule("C19-a", 10)
 	// map iterators from the standard library are map ranges in disguise
 	for _, sfx := range []string{"", "ast", "builder"} {
 		p := g.Pkg(sfx)
